@@ -2,7 +2,7 @@
    Only ExtrOcamlBasic: bool, option, list, prod, unit, sumbool map to the
    OCaml types; nat, N, positive, Z stay the extracted inductives.  No
    Extract Constant, no further Extract Inductive. *)
-From AsconV Require Import Model.Aeadm.
+From AsconV Require Export Model.Aeadm.
 
 Definition x_perm := Perm.perm.
 Definition x_aead_encrypt := encrypt_c Perm.perm.
